@@ -144,7 +144,8 @@ PROPS = {
         text="Part 'teardown': one fault (read error, write error, five timeouts, link change) is injected into the running real advertiser / monitor, followed by every re-dial answer and optional cancellation, under every schedule within the deviation bound; the ordered seam log must show prompt, complete teardown, re-establishment or a reported error per the policy, and no I/O on the old connection. Part 'policy': every sequence of dial/task outcomes to the stated depth goes through the real Dialer and is compared with a 30-line reference state machine (attempt count, back-off values in virtual time, classification).",
         note="Fault alphabets are finite lists; the 17-request ipC saturation case is outside the bounds; classification of errors returned by retry dials is a don't-care (statement silent).",
         parts=[part("teardown", "internal/corerad", "TestVerifC10", mode="sched", gomaxprocs=2, shards={"quick": 12, "thorough": 16}),
-               part("policy", "internal/system", "TestVerifC11", shards={"quick": 8, "thorough": 16})],
+               part("policy", "internal/system", "TestVerifC11", shards={"quick": 8, "thorough": 16}),
+               part("retry", "internal/corerad", "TestVerifC10Retry", mode="sched", gomaxprocs=2, shards={"quick": 4, "thorough": 8})],
     ),
     "C11": dict(
         level="fault_enumeration", engine="envdfs",
